@@ -341,4 +341,37 @@ def proxySeriesWith (merge : List (List Frame) → List Frame) (rq : Request) (s
 def proxySeries (rq : Request) (stores : List Store) : List Frame × Outcome :=
   proxySeriesWith treeMerge rq stores
 
+/-! ### one level up: `querier.selectFn` (pkg/query/querier.go)
+
+  `seriesServer.Send` collects the proxy's answer (warnings with a non-empty text become
+  annotations, series / batches are appended, anything else is skipped); `selectFn` returns an error
+  when `proxy.Series` failed, otherwise a series set that carries the collected warnings
+  (`NewPromSeriesSet(…, warns)`, through `dedup.NewSeriesSet` when replica deduplication is on).
+  What happens to the samples afterwards (chunk iterators, penalty deduplication) is C04's subject;
+  here only the status, the warnings and whether there is any series at all are modelled. -/
+
+/-- `seriesServer.Send` over the whole answer: the series set and the warnings -/
+def collectAnswer (fs : List Frame) : List Series × List Bytes :=
+  (flatten fs, fs.filterMap fun f => match f with | .warning m => if m.isEmpty then none else some m | _ => none)
+
+structure SelectResult where
+  failed : Bool                -- `Select(...).Err() != nil`
+  series : List Series         -- `resp.seriesSet`
+  warnings : List Bytes        -- `Select(...).Warnings()` (a set; kept as the list of arrivals)
+  deriving Repr
+
+/-- `selectFn`.  `dropWhenEmpty = true` is a *hypothetical* variant (a "fast path" returning
+    `storage.EmptySeriesSet()` before the warnings are read when no series came back) — the code in
+    /repo is `false`; see `C06_querier_fastpath_false` and the fact `selectFnSuccessReturns`. -/
+def selectFnWith (dropWhenEmpty : Bool) (merge : List (List Frame) → List Frame) (rq : Request)
+    (stores : List Store) : SelectResult :=
+  match proxySeriesWith merge rq stores with
+  | (out, .ok) =>
+    let (ss, ws) := collectAnswer out
+    if dropWhenEmpty && ss.isEmpty then { failed := false, series := [], warnings := [] }
+    else { failed := false, series := ss, warnings := ws }
+  | (_, _) => { failed := true, series := [], warnings := [] }
+
+def selectFn (rq : Request) (stores : List Store) : SelectResult := selectFnWith false treeMerge rq stores
+
 end Thanos.Merge
